@@ -51,6 +51,9 @@ def build(ctx, rnd, gens):
                     if cls == "terminator":
                         step["req"]["holders"] = [TERMINATOR_HOLDER]
                     step["must"] = must
+                    # a holder carrying the style's comment terminator cannot be written as a valid header of that file
+                    # (with --force-dot-license nothing is commented: the sibling takes any holder)
+                    step["mustfail"] = {FAIL_FILES[cls][f][0]: True for f in fs if f in failed and dot != "force"}
                     add(files, [step], cls=cls, bundle=b["name"], targets=order, failing=sorted(failed), dot=dot)
     # invocation-wide failure classes and usage errors, over three good files (+ one special file)
     good = [{"name": n, "kind": k if not k.startswith("ownheader") else "code", "style_name": s} for n, s, k in OK_FILES.values()]
